@@ -7,7 +7,8 @@ from typing import Callable
 
 replacements = {"!": "not ", "^": " and ", "v": " or "}
 
-pattern = re.compile(r"\!(?!=)|\^|\bv\b")
+# string literals are matched first, as a whole, so that operator spellings inside them are left alone
+pattern = re.compile(r"""("(?:[^"\\]|\\.)*"|'(?:[^'\\]|\\.)*')|\!(?!=)|\^|\bv\b""")
 
 comparison_repr = {
     operator.eq: "==",
@@ -28,6 +29,8 @@ def _unique_key(left, right, operator) -> str:
 def replace_operators(expr: str) -> str:
     # preprocess the expression adding support for classical logical operators
     def match_func(match):
+        if match.group(1) is not None:
+            return match.group(0)  # a string literal: unchanged
         return replacements[match.group(0)]
 
     return pattern.sub(match_func, expr)
